@@ -93,8 +93,13 @@ pipeline_item = st.one_of(
 
 @st.composite
 def case_strategy(draw):
-    branch = draw(st.integers(0, 9))
-    if branch < 5:
+    branch = draw(st.integers(0, 11))
+    if branch >= 10:
+        # an otherwise perfect CONNECT for a registered object with exactly ONE thing wrong in its header / framing
+        first = {"kind": "connect", "ser": draw(sers), "ser_id": None, "shape": draw(st.sampled_from(["ok", "ok", "nested", "extra-keys"])),
+                 "object": draw(st.sampled_from(["t", "sess", "Pyro.Daemon"])), "mal": draw(mals.filter(lambda m: m is not None)),
+                 "flags": 0, "seq": draw(st.sampled_from([0, 0, 1, 7, 65535]))}
+    elif branch < 5:
         # a perfectly good first message: everything then depends on the validator / the pool (branch 4: ... and on the object named)
         first = {"kind": "connect", "ser": draw(sers), "ser_id": None, "shape": draw(st.sampled_from(["ok", "ok", "nested", "extra-keys"])),
                  "object": draw(st.sampled_from(["t", "sess", "Pyro.Daemon"]) if branch < 4 else objects), "mal": None,
@@ -281,9 +286,9 @@ def run_case(case, variant=None, keep=False):
             args = (x,) if oid != "Pyro.Daemon" else ()
             pipe += wire.ref_encode(wire.INVOKE, 0, seq, live.SER_IDS[ser], live.call_payload(ser, oid, method, args, {}))
             expect_replies.append(("invoke", seq, (oid, x, ser)))
-    if first["mal"] in ("dlen+", "alen+", "oversize"):
-        # the header announces more bytes than the first message has: anything written behind it would be read as part of
-        # that message (and e.g. marshal ignores trailing bytes), so it would not be malformed at all from the server's view
+    if first["mal"] in ("dlen+", "alen+", "oversize", "truncate-header", "truncate-body"):
+        # the header announces more bytes than the first message has (or the message was cut short): anything written behind it
+        # would be read as part of that message (and e.g. marshal ignores trailing bytes), so it would not be malformed at all from the server's view
         pipe = b""
         expect_replies = []
     del EXEC[:]
